@@ -386,6 +386,16 @@ def proof_obligations(res, prop_mods, extra_targets=None):
             res.oblige("theorem:%s.%s (Print Assumptions: %s)" % (m, n, "closed" if okc else c), okc)
         allnames += ["%s.%s" % (m, n) for n in names]
     res.coverage["theorems"] = allnames
+    if res.tier == "thorough":
+        # independent re-check of the compiled files (and everything they depend on) + the axioms they rely on
+        for m in prop_mods:
+            rc, out, dt = run(["coqchk", "-silent", "-o", "-Q", "theories", "BT", "-Q", "gen", "BTGen", "BT.Props.%s" % m], cwd=COQ, timeout=5400)
+            mm = re.search(r'\* Axioms:\s*(.*?)\n\s*\n', out, re.S)
+            axioms = mm.group(1).strip() if mm else "?"
+            okc = rc == 0 and axioms == "<none>"
+            allclosed &= okc
+            res.oblige("coqchk -o BT.Props.%s (%.0fs): axioms %s" % (m, dt, axioms[:200]), okc, out[-400:] if not okc else "")
+            res.coverage.setdefault("coqchk", {})[m] = {"seconds": round(dt), "axioms": axioms[:300], "rc": rc}
     if not ((not hits) and allclosed):
         return False, {"file": "Props", "line": 0, "error": "forbidden construct or open assumption: %s" % (hits,)}
     return True, None
